@@ -275,6 +275,13 @@ pub fn words_history(o: &Oracle, id: &str, seed: u64, rep: &Report, rounds: u64)
                 // accessors on a card, possibly marked
                 match o.word_to_card.get(&(w & o.flag_word("strip_mask"))) {
                     Some(_) if (id == "C10") != is_card(w) => true, // C10 speaks of cards, C20 of marked cards
+                    Some(&i) if id == "C20" => {
+                        // marked: reads the same as the card itself (code against code)
+                        let c = o.cards[i].w;
+                        w.get_rank_prime() == c.get_rank_prime() && w.get_rank_bit() == c.get_rank_bit() && w.get_suit_bit() == c.get_suit_bit()
+                            && w.get_card_rank() == c.get_card_rank() && w.get_card_suit() == c.get_card_suit()
+                            && w.get_rank_char() == c.get_rank_char() && w.get_suit_char() == c.get_suit_char()
+                    }
                     Some(&i) => {
                         let c = &o.cards[i];
                         w.get_rank_prime() == c.prime && w.get_rank_bit() == c.rank_bit && w.get_suit_bit() == c.suit_bit
@@ -566,13 +573,20 @@ pub fn big_families_history(o: &Oracle, id: &str, seed: u64, rep: &Report, round
                 _ => rank_value(&h),
             });
             if which == 6 {
-                exp = guarded(|| rank_value(&h)).unwrap_or(0);
+                // if ranking the hand itself unwinds there is no value to compare with (that is C05's statement)
+                match guarded(|| rank_value(&h)) {
+                    Ok(v) => exp = v,
+                    Err(_) => continue,
+                }
             } else if which == 7 {
+                if got.is_err() {
+                    continue;
+                }
                 // the smallest value among the hand's own sub-hands with one card left out
                 exp = (0..n)
                     .map(|d| {
                         let sub: Vec<u32> = w.iter().enumerate().filter(|(k, _)| *k != d).map(|(_, c)| *c).collect();
-                        guarded(|| rank_value(&Hand::from_words(&sub))).unwrap_or(0)
+                        guarded(|| rank_value(&Hand::from_words(&sub))).unwrap_or(u16::MAX)
                     })
                     .min()
                     .unwrap_or(0);
